@@ -261,8 +261,26 @@ type readCase struct {
 	Shape      int      `json:"shape"`
 }
 
+// failing statements that run between two reads (shapes 4 and 5)
+var readFailTop = []string{"aton(5)", "[1][3]", "1 / 0", "nothingx + 1", "elems(5)", "toa(1, 2)", "aton(\"x\")"}
+var readFailDeep = []string{"dbad(3)", "for v <- gbad(2) v", "for a, b <- fromto(0, 3), gbad(1) a", "[1, dbad(0)]"}
+
 func readScript(shape, k int) string {
-	switch shape % 4 {
+	if shape%6 >= 4 {
+		fails := readFailTop
+		pre := ""
+		if shape%6 == 5 {
+			fails = readFailDeep
+			pre = "dbad = (n) -> if n <= 0 1 / 0 else 1 + dbad(n - 1)\ngbad = (n) -> {\ni = 0\nwhile i < n {\nyield i\ni = i + 1\n}\nyield [1][n + 5]\n}\n"
+		}
+		var sb strings.Builder
+		sb.WriteString(pre)
+		for i := 0; i < k; i++ {
+			sb.WriteString("write(\"<\" + read() + \">\")\n" + fails[(i+shape/6)%len(fails)] + "\n")
+		}
+		return sb.String()
+	}
+	switch shape % 6 {
 	case 0:
 		return strings.Repeat("write(\"<\" + read() + \">\")\n", k)
 	case 1:
@@ -285,7 +303,7 @@ func readCheck(t testing.TB, c readCase) string {
 		lines = lines[:len(lines)-1]
 	}
 	k := c.K
-	if c.Shape%4 == 3 && k%2 == 1 {
+	if c.Shape%6 == 3 && k%2 == 1 {
 		k++
 	}
 	r := runCalc(t, "file", readScript(c.Shape, c.K), input)
@@ -293,8 +311,17 @@ func readCheck(t testing.TB, c readCase) string {
 		return fmt.Sprintf("aborts:\n%s", clipS(r.out))
 	}
 	out := r.out
+	if c.Shape%6 >= 4 {
+		// the reports of the failing statements between the reads are not the subject here
+		out = reportRe.ReplaceAllStringFunc(out, func(m string) string {
+			if strings.HasPrefix(m, "RUNTIME ERROR : read error") {
+				return m
+			}
+			return ""
+		})
+	}
 	shown := min(k, len(lines))
-	if c.Shape%4 == 3 && k > len(lines) {
+	if c.Shape%6 == 3 && k > len(lines) {
 		// this script reads two lines before it writes them: the failing pair prints nothing
 		shown = len(lines) / 2 * 2
 	}
@@ -333,7 +360,7 @@ func c17ReadProp(rec *ev.Recorder, tb testing.TB) func(t *rapid.T) {
 		c := readCase{
 			Lines:      rapid.SliceOfN(line, 0, 8).Draw(t, "lines"),
 			FinalBreak: rapid.Bool().Draw(t, "final"),
-			Shape:      rapid.IntRange(0, 3).Draw(t, "shape"),
+			Shape:      rapid.IntRange(0, 17).Draw(t, "shape"),
 		}
 		c.K = rapid.IntRange(0, len(c.Lines)+2).Draw(t, "k")
 		if why := readCheck(tb, c); why != "" {
